@@ -40,7 +40,7 @@ var rng *rand.Rand
 var vals = []interface{}{float64(1), float64(2), "a", true, nil, map[string]interface{}{"k": float64(1)},
 	[]interface{}{float64(1), float64(2)}, 1.5, "n1", "n2",
 	[]interface{}{map[string]interface{}{"k": float64(1)}}, map[string]interface{}{"k": []interface{}{float64(1)}}}
-var bkeys = []string{"k", "j", "t", "?x", "?t", "p!", "q!", "xs", "!"}
+var bkeys = []string{"k", "j", "t", "?x", "?t", "p!", "q!", "xs", "!", "?<lim"}
 var nodeNames = []string{"n0", "n1", "n2", "error", "ghost"}
 
 func pick(xs []interface{}) interface{} { return enc.DeepCopy(xs[rng.Intn(len(xs))]) }
@@ -55,6 +55,7 @@ var patterns = []interface{}{
 	map[string]interface{}{"?p": float64(1)},
 	map[string]interface{}{"t": "?t"},
 	map[string]interface{}{"k": "?x", "j": "?x"},
+	map[string]interface{}{"n": "?<lim"},
 	map[string]interface{}{},
 	map[string]interface{}{"k": "??o"},
 	map[string]interface{}{"k": map[string]interface{}{"k": "?x"}},
@@ -80,6 +81,9 @@ var msgs = []interface{}{
 	map[string]interface{}{"t": "n1", "k": float64(1)},
 	map[string]interface{}{"k": map[string]interface{}{"k": float64(1)}, "j": map[string]interface{}{"k": float64(1)}},
 	map[string]interface{}{"k": "a", "j": "a"},
+	// (a value that strictly contains what a variable may be bound to; a number for a bound inequality)
+	map[string]interface{}{"k": map[string]interface{}{"k": float64(1), "z": float64(2)}},
+	map[string]interface{}{"n": float64(1)},
 	"scalar",
 	float64(1),
 	[]interface{}{float64(1)},
